@@ -315,6 +315,7 @@ def r9_5(ctx):
     from . import c11
     c11.r11_2(ctx)
     c11.r11_3(ctx)
+    c11.r11_5(ctx)
 
 
 def run(ctx):
